@@ -1,2 +1,221 @@
-import DuneVerif.Common.Proto
-def main : IO Unit := DV.runDriver fun _ => "bad-op"
+import DuneVerif.Model.C19
+/-!
+line-protocol driver for C19
+
+  guard <def|helper|mpicomm|cc|seq> <[colour per rank]> : <section>;<section>;…
+      section = 2 letters per rank (arm ∈ n m a, act ∈ t d f r x q); answer = per rank one letter per section
+  fut <mpi|seq> <op> <void|int|vec|ref> <raw|erased> red=<sum|min|max> root=<r> vals=<v0/v1/…> : <step>;<step>;…
+      step = 1 letter per rank (v y w g c s -); answer = per rank the comma separated observations
+-/
+open DV DV.C19
+
+def sentinel : Int := -777
+
+/-! ### guard -/
+
+def parseArm : Char → Option Arm
+  | 'n' => some .fresh
+  | 'm' => some .freshInactive
+  | 'a' => some .rearm
+  | _ => none
+
+def parseAct : Char → Option Act
+  | 't' => some .finTrue
+  | 'd' => some .finDefault
+  | 'f' => some .finFalse
+  | 'r' => some .react
+  | 'x' => some .throwUser
+  | 'q' => some .leave
+  | _ => none
+
+def parseSection (p : Nat) (s : String) : Option (List (Arm × Act)) :=
+  let cs := s.toList
+  if cs.length ≠ 2 * p then none else
+  (List.range p).mapM fun i =>
+    match parseArm (cs.getD (2 * i) ' '), parseAct (cs.getD (2 * i + 1) ' ') with
+    | some a, some b => some (a, b)
+    | _, _ => none
+
+def showObs : Obs → String
+  | .none => "-"
+  | .guardError => "E"
+  | .userExc => "X"
+  | .terminated => "!"
+
+def dedup (l : List Nat) : List Nat := l.foldl (fun acc x => if acc.contains x then acc else acc ++ [x]) []
+
+def handleGuard (ctor : String) (groups : String) (body : String) : String :=
+  match parseNatList? groups with
+  | none => "bad-op"
+  | some cols =>
+    let p := cols.length
+    if p = 0 then "bad-op" else
+    if !(["def", "helper", "mpicomm", "cc", "seq"].contains ctor) then "bad-op" else
+    let secStrs := (body.splitOn ";").map fun s => String.ofList (s.toList.filter (· ≠ ' '))
+    match secStrs.mapM (parseSection p) with
+    | none => "bad-op"
+    | some secs =>
+      let n := secs.length
+      match secs.getLast? with
+      | none => "bad-op"
+      | some last =>
+        if last.any (fun s => s.2 == Act.react) then "bad-op" else
+        let colour (i : Nat) : Nat :=
+          if ctor == "seq" then i else if ctor == "def" || ctor == "helper" then 0 else cols.getD i 0
+        let script (i k : Nat) : Arm × Act := (secs.getD k []).getD i (.fresh, .finTrue)
+        let ranks := List.range p
+        let colours := dedup (ranks.map colour)
+        -- per group: run the ranks' programs in lock step
+        let results : List (Nat × String) := colours.flatMap fun c =>
+          let members := ranks.filter fun i => colour i == c
+          match runJoint (2 * n + 4) (members.map fun i => rankProg (script i) n) with
+          | .done outs => members.zip (outs.map fun os => String.join (os.map showObs))
+          | .deadlock => members.map fun i => (i, "DEADLOCK")
+          | .outOfFuel => members.map fun i => (i, "FUEL")
+        " ".intercalate (ranks.map fun i =>
+          "r" ++ toString i ++ "{" ++ ((results.find? (·.1 == i)).map (·.2)).getD "?" ++ "}")
+
+/-! ### futures -/
+
+def parseFOp : Char → Option (Option FOp)
+  | 'v' => some (some .valid)
+  | 'y' => some (some .ready)
+  | 'w' => some (some .wait)
+  | 'g' => some (some .get)
+  | 'c' => some (some .complete)
+  | 's' => some (some .spin)
+  | '-' => some none
+  | _ => none
+
+def parseVals (s : String) : Option (List (List Int)) :=
+  (s.splitOn "/").mapM fun part =>
+    if part == "_" then some [] else (part.splitOn ",").mapM fun t => t.toInt?
+
+def parseRed : String → Option Red
+  | "red=sum" => some .sum
+  | "red=min" => some .min
+  | "red=max" => some .max
+  | _ => none
+
+def stripPrefix? (pre s : String) : Option String :=
+  if s.startsWith pre then some (String.ofList (s.toList.drop pre.length)) else none
+
+def showFObs (dontcare : Bool) : FObs → String
+  | .bool true => "T"
+  | .bool false => "F"
+  | .ok => "ok"
+  | .data d => if dontcare then "_" else showList d
+  | .errInvalid => "ERR:InvalidFuture"
+  | .env => "c"
+
+/-- the future a rank holds -/
+inductive AnyFut where
+  | mpiT (f : MpiFut)
+  | mpiVoid (f : MpiVoid)
+  | pseudoT (f : PseudoFut)
+  | pseudoVoid (f : PseudoVoid)
+  | idle
+
+def AnyFut.step : AnyFut → FOp → FObs × AnyFut
+  | .mpiT f, o => let r := f.step o; (r.1, .mpiT r.2)
+  | .mpiVoid f, o => let r := f.step o; (r.1, .mpiVoid r.2)
+  | .pseudoT f, o => let r := f.step o; (r.1, .pseudoT r.2)
+  | .pseudoVoid f, o => let r := f.step o; (r.1, .pseudoVoid r.2)
+  | .idle, _ => (.env, .idle)
+
+def allowed (comm op ty : String) : Bool :=
+  match comm, op with
+  | _, "none" => ty == "void" || ty == "int"
+  | _, "ibarrier" => ty == "void"
+  | "mpi", "ibroadcast" => ty == "int" || ty == "vec" || ty == "ref"
+  | "seq", "ibroadcast" => ty == "int" || ty == "vec"
+  | _, "igather" => ty == "int"
+  | _, "iscatter" => ty == "int"
+  | _, "iallgather" => ty == "int"
+  | _, "iallreduce" => ty == "int" || ty == "vec"
+  | "mpi", "iallreduce1" => ty == "int" || ty == "vec" || ty == "ref"
+  | "seq", "iallreduce1" => ty == "int" || ty == "vec"
+  | "mpi", "p2p" => ty == "int" || ty == "vec"
+  | _, _ => false
+
+/-- (future, payload is don't-care) of rank `i` -/
+def startFut (comm op ty : String) (red : Red) (root : Nat) (vals : List (List Int)) (i : Nat) : AnyFut × Bool :=
+  let p := vals.length
+  let mine := vals.getD i []
+  let sent (n : Nat) : List Int := List.replicate n sentinel
+  if comm == "seq" then
+    match op with
+    | "none" => (if ty == "void" then .pseudoVoid PseudoVoid.invalid else .pseudoT PseudoFut.invalid, false)
+    | "ibarrier" => (.pseudoVoid PseudoVoid.start, false)
+    | "ibroadcast" => (.pseudoT (PseudoFut.start mine), false)
+    | "igather" => (.pseudoT (PseudoFut.start [mine.headD 0]), false)
+    | "iscatter" => (.pseudoT (PseudoFut.start [mine.headD 0]), false)
+    | "iallgather" => (.pseudoT (PseudoFut.start [mine.headD 0]), true)
+    | _ => (.pseudoT (PseudoFut.start mine), false)   -- iallreduce, iallreduce1 on one process
+  else
+    match op with
+    | "none" => (if ty == "void" then .mpiVoid MpiVoid.invalid else .mpiT MpiFut.invalid, false)
+    | "ibarrier" => (.mpiVoid MpiVoid.start, false)
+    | "ibroadcast" => (.mpiT (MpiFut.start mine (vals.getD root [])), false)
+    | "igather" =>
+      if i == root then (.mpiT (MpiFut.start (sent p) (firsts vals)), false)
+      else (.mpiT (MpiFut.start [] []), true)
+    | "iscatter" => (.mpiT (MpiFut.start (sent 1) [mine.headD 0]), false)
+    | "iallgather" => (.mpiT (MpiFut.start (sent p) (firsts vals)), false)
+    | "iallreduce" => (.mpiT (MpiFut.start (sent mine.length) (reduceAll red vals)), false)
+    | "iallreduce1" => (.mpiT (MpiFut.start mine (reduceAll red vals)), false)
+    | _ =>  -- p2p: root sends to root+1
+      let src := vals.getD root []
+      if p < 2 then (.idle, false)
+      else if i == root then (.mpiT (MpiFut.start src src), false)
+      else if i == (root + 1) % p then (.mpiT (MpiFut.start (sent src.length) src), false)
+      else (.idle, false)
+
+def runRank (f : AnyFut) (dontcare : Bool) (ops : List (Option FOp)) : List String :=
+  match ops with
+  | [] => []
+  | none :: os => "-" :: runRank f dontcare os
+  | some o :: os =>
+    let r := f.step o
+    showFObs dontcare r.1 :: runRank r.2 dontcare os
+
+def handleFut (hdr : List String) (body : String) : String :=
+  match hdr with
+  | [comm, op, ty, wrap, reds, roots, valss] =>
+    match parseRed reds, (stripPrefix? "root=" roots).bind (·.toNat?), (stripPrefix? "vals=" valss).bind parseVals with
+    | some red, some root, some vals =>
+      let p := vals.length
+      if !(comm == "mpi" || comm == "seq") || !(wrap == "raw" || wrap == "erased") then "bad-op" else
+      if !allowed comm op ty || root ≥ p then "bad-op" else
+      -- payload shape: void → empty, int/ref → one value, vec → equal lengths (p2p: at least one)
+      let l0 := (vals.headD []).length
+      let shapeOk :=
+        if ty == "void" then vals.all (·.isEmpty)
+        else if ty == "vec" then vals.all (·.length == l0) && (op != "p2p" || l0 ≥ 1)
+        else vals.all (·.length == 1)
+      if !shapeOk then "bad-op" else
+      let stepStrs := (body.splitOn ";").map fun s => s.toList.filter (· ≠ ' ')
+      if stepStrs.any (·.length ≠ p) then "bad-op" else
+      match stepStrs.mapM (fun cs => cs.mapM parseFOp) with
+      | none => "bad-op"
+      | some steps =>
+        " ".intercalate ((List.range p).map fun i =>
+          let (f, dc) := startFut comm op ty red root vals i
+          let mineOps := steps.map fun st => (st.getD i none)
+          let body := match f with
+            | .idle => "idle"
+            | _ => ",".intercalate (runRank f dc mineOps)
+          "r" ++ toString i ++ "{" ++ body ++ "}")
+    | _, _, _ => "bad-op"
+  | _ => "bad-op"
+
+def handle (line : String) : String :=
+  match line.splitOn " : " with
+  | [hdr, body] =>
+    match tokens hdr with
+    | ["guard", ctor, groups] => handleGuard ctor groups body
+    | "fut" :: rest => handleFut rest body
+    | _ => "bad-op"
+  | _ => "bad-op"
+
+def main : IO Unit := runDriver handle
